@@ -79,6 +79,14 @@ def rep_forms(rng, vec, n, allow_sparse=True):
         out.append(('mapping+-', mixed))
         full = {i: v for i, v in enumerate(vec)}
         out.append(('mapping-full', full))
+        # mappings that are not dict subclasses (ValuesLike is Mapping)
+        import types
+        import collections
+        sparse = {i: v for i, v in enumerate(vec) if v}
+        out.append(('mappingproxy', types.MappingProxyType(dict(sparse))))
+        out.append(('chainmap', collections.ChainMap({}, dict(sparse))))
+        out.append(('userdict', collections.UserDict(
+            {i - n: v for i, v in enumerate(vec) if v})))
         k = n
         while k and not vec[k - 1]:
             k -= 1
